@@ -187,7 +187,7 @@ structure RInv (e : Env) (R : RState) (T : Term) : Prop where
 /-- calls without effect on the terminal model -/
 def Cmd.inert : Cmd → Bool
   | .writeRaw _ | .enterAlt | .quitAlt | .enableMouse | .disableMouse | .enablePaste | .disablePaste
-  | .resetCkm | .resetCursorShape | .setCursorShape _ | .scrollToPrompt | .flush => true
+  | .resetCkm | .resetCursorShape | .setCursorShape _ | .scrollToPrompt | .flush | .askCpr => true
   | _ => false
 
 theorem exec_inert (T : Term) : ∀ cs : List Cmd, (∀ c ∈ cs, c.inert = true) → exec cw T cs = T := by
